@@ -229,6 +229,16 @@ def cone_slice_curved_raises():
         return True
 
 
+def curved_alignment_fixed():
+    """Measured variant: do the curved detectors align a0, a1 exactly (surface_deriv(0,0) = r * axes) on the
+    recorded antiparallel input?"""
+    import odl
+    from odl.tomo.geometry.detector import CylindricalDetector
+    _, dp = _parts(odl, 2)
+    d = CylindricalDetector(dp, axes=[(0, 1, 0), (0, 0, 1)], radius=2.0)
+    return bool(np.allclose(d.surface_deriv((0.0, 0.0)), [[0, 2, 0], [0, 0, 1]], atol=1e-10))
+
+
 def _float_perp(odl, axis, axes, m=None):
     """Would the detector axes the constructor computes be EXACTLY perpendicular in floating point?
     (Cylindrical/SphericalDetector test dot != 0; when rounding decides, the input is outside the
@@ -565,7 +575,7 @@ def fan_cases(rng, tier):
     return cs
 
 
-def cone_cases(rng, tier, slice_raises):
+def cone_cases(rng, tier, slice_raises, curved_fixed):
     import odl
     cs = C.CaseSet('cone', IMPORTS, 'check', 'case')
     ap, dp = _parts(odl, 2)
@@ -623,8 +633,8 @@ def cone_cases(rng, tier, slice_raises):
             with_tr = rng.random() < 0.6
             mat = [fl(row) + ([float(t)] if with_tr else []) for row, t in zip(m, tr)]
             trm = tr if with_tr else [0, 0, 0]
-            model = ('obs_cone (q_cone_frommatrix %s %s %s %s %s %s %s) %s %s'
-                     % (C.q(rs), C.q(rd), curvt, C.q(pitch), C.q(off), qm(m), qv(trm), C.q(twopi), ptt))
+            model = ('obs_cone (q_cone_frommatrix %s %s %s %s %s %s %s %s) %s %s'
+                     % (C.b(curved_fixed), C.q(rs), C.q(rd), curvt, C.q(pitch), C.q(off), qm(m), qv(trm), C.q(twopi), ptt))
             it = impl(lambda: obs_cone(odl.tomo.ConeBeamGeometry.frommatrix(
                 ap, dp, rs, rd, mat, det_curvature_radius=curv, pitch=pitch, offset_along_axis=off, **kw), pts))
             desc['init_matrix'] = str(mat)
@@ -643,13 +653,13 @@ def cone_cases(rng, tier, slice_raises):
                     k2['det_axes_init'] = [fl(a) for a in axes]
                 return odl.tomo.ConeBeamGeometry(ap, dp, rs, rd, det_curvature_radius=curv, pitch=pitch, axis=fl(axis),
                                                  offset_along_axis=off, translation=fl(tr), **k2)
-            mk = ('q_mk_cone %s %s %s %s %s %s %s %s %s'
-                  % (C.q(rs), C.q(rd), curvt, C.q(pitch), C.q(off), qv(axis), opt(s2d, qv), opt(axes, qv2), qv(tr)))
+            mk = ('q_mk_cone %s %s %s %s %s %s %s %s %s %s'
+                  % (C.b(curved_fixed), C.q(rs), C.q(rd), curvt, C.q(pitch), C.q(off), qv(axis), opt(s2d, qv), opt(axes, qv2), qv(tr)))
             if mode == 'ctor':
                 model = 'obs_cone (%s) %s %s' % (mk, C.q(twopi), ptt)
                 it = impl(lambda: obs_cone(build(), pts))
             else:
-                model = 'obs_cone (bindg (%s) (q_cone_getitem)) %s %s' % (mk, C.q(twopi), ptt)
+                model = 'obs_cone (bindg (%s) (q_cone_getitem %s)) %s %s' % (mk, C.b(curved_fixed), C.q(twopi), ptt)
                 it = impl(lambda: obs_cone(build()[i:j], pts))
                 if typeerr:
                     try:
@@ -664,7 +674,7 @@ def correspondence(rng, tier):
     fixed = par2d_slice_fixed()
     _ARANGE[0] = (-4.0, 4.0)
     out = [utility_cases(rng, tier), par2d_cases(rng, tier, fixed), par3_cases(rng, tier), fan_cases(rng, tier),
-           cone_cases(rng, tier, cone_slice_curved_raises())]
+           cone_cases(rng, tier, cone_slice_curved_raises(), curved_alignment_fixed())]
     _ARANGE[0] = (-4.0, 4.0)
     return out
 
@@ -932,6 +942,142 @@ def _probe_factories(rng, tier):
     return out
 
 
+# integer right-handed orthogonal frames (images of e_x, e_y, e_z), exactly perpendicular in floating point
+FRAMES = [((1, 2, 2), (2, -2, 1), (2, 1, -2)), ((2, -2, 1), (2, 1, -2), (1, 2, 2)), ((3, 4, 0), (-4, 3, 0), (0, 0, 2)),
+          ((2, 3, 6), (-6, -2, 3), (3, -6, 2)), ((1, 0, 0), (0, 1, 0), (0, 0, 1)), ((0, 0, 1), (1, 0, 0), (0, 1, 0)),
+          ((0, 1, 0), (-1, 0, 0), (0, 0, 1)), ((4, 4, 7), (-8, 1, 4), (1, -8, 4)), ((12, 5, 0), (5, -12, 0), (0, 0, -1)),
+          ((2, 1, -2), (1, 2, 2), (2, -2, 1)), ((0, -1, 0), (1, 0, 0), (0, 0, 1)), ((-1, 0, 0), (0, 0, 1), (0, 1, 0))]
+
+
+def _minimal_rotation(f, t):
+    """Independent reference: the rotation of smallest angle taking the unit vector f to the unit vector t
+    (f != -t)."""
+    f, t = np.asarray(f, float), np.asarray(t, float)
+    v = np.cross(f, t)
+    c = float(f.dot(t))
+    K = np.array([[0, -v[2], v[1]], [v[2], 0, -v[0]], [-v[1], v[0], 0]])
+    return np.eye(3) + K + K.dot(K) / (1 + c)
+
+
+def _antiparallel_axes(a0, a1):
+    """The curved detectors align themselves by r1 = rotation(-e_y -> a0), r2 = rotation(r1 e_z -> a1); when
+    r1 e_z = -a1 the second rotation is a half turn about an arbitrary axis (recorded finding)."""
+    a0 = np.asarray(a0, float) / np.linalg.norm(a0)
+    a1 = np.asarray(a1, float) / np.linalg.norm(a1)
+    if np.allclose(a0, [0, 1, 0]):
+        return True                 # already the first rotation is a half turn about an arbitrary axis
+    r1 = _minimal_rotation([0, -1, 0], a0)
+    return bool(r1.dot([0, 0, 1]).dot(a1) < -1 + 1e-9)
+
+
+def _probe_curved(rng, tier):
+    """Curved detectors with non-default axes: surface_deriv(0, 0) = radius * axes (height axis of the cylinder: the
+    axis itself); a spherical detector of radius src_radius + det_radius is equidistant from the source; the whole
+    cone beam geometry built on a rotated frame is the rigid-motion image of the default one (flat, cylindrical and
+    spherical detectors; direct construction on integer frames and frommatrix with generic rotation matrices)."""
+    import odl
+    out = []
+    pre = ("import numpy as np, odl\nap = odl.uniform_partition(-4.0, 4.0, 8)\n"
+           "dp2 = odl.uniform_partition([-4.0, -4.0], [4.0, 4.0], [8, 6])\n")
+    frames = FRAMES if tier != 'quick' else FRAMES[:8]
+    for e1, e2, e3 in frames:
+        for s1, s3 in ((1, 1), (1, -1)) if tier == 'quick' else ((1, 1), (1, -1), (-1, 1), (-1, -1)):
+            a0 = [s1 * x for x in e1]
+            a1 = [s3 * x for x in e3]
+            s2d = [s1 * s3 * x for x in e2]          # keeps the frame right-handed
+            known = _antiparallel_axes(a0, a1)
+            rad = rng.choice([1.5, 2.5, 4.0])
+            for cls, curvkind in (('CylindricalDetector', 'cyl'), ('SphericalDetector', 'sph')):
+                rp = (pre + "from odl.tomo.geometry.detector import %s\n"
+                      "d = %s(dp2, axes=[%r, %r], radius=%r)\n"
+                      "observed = d.surface_deriv((0.0, 0.0)).tolist()\n"
+                      "expected = (d.axes * np.array([[%r], [%s]])).tolist()\n"
+                      "ok = bool(np.allclose(observed, expected, atol=1e-10) and np.allclose(d.surface((0.0, 0.0)), 0, atol=1e-10))\n"
+                      % (cls, cls, a0, a1, rad, rad, repr(rad) if curvkind == 'sph' else '1.0'))
+                env = {}
+                try:
+                    exec(rp, env)
+                    ok = env['ok']
+                except Exception:       # noqa
+                    ok = False
+                out.append(C.Probe(bool(ok), 'curved-detector-antiparallel-axes' if known else 'curved-deriv-at-zero-' + cls,
+                                   '%s(axes=[%r, %r]): surface_deriv(0, 0) equals radius * axes and surface(0, 0) = 0' % (cls, a0, a1), rp))
+            # source-centred sphere: every detector point has distance src_radius + det_radius from the source
+            rs, rd = rng.choice([(3.0, 2.0), (2.5, 1.5), (4.0, 4.0)])
+            pts = [(round(rng.uniform(-3.9, 3.9), 3), (round(rng.uniform(-1.2, 1.2), 3), round(rng.uniform(-1.2, 1.2), 3)))
+                   for _ in range(4)]
+            rp = (pre + "g = odl.tomo.ConeBeamGeometry(ap, dp2, %r, %r, det_curvature_radius=(%r, %r), axis=%r, src_to_det_init=%r, "
+                  "det_axes_init=[%r, %r], pitch=1.5, translation=[0.5, -1.0, 2.0])\n"
+                  "observed = [float(np.linalg.norm(g.det_to_src(a, u, normalized=False))) for a, u in %r]\n"
+                  "expected = %r\nok = bool(np.allclose(observed, expected, atol=1e-9))\n"
+                  % (rs, rd, rs + rd, rs + rd, a1, s2d, a0, a1, pts, rs + rd))
+            env = {}
+            try:
+                exec(rp, env)
+                ok = env['ok']
+            except Exception:       # noqa
+                ok = False
+            out.append(C.Probe(bool(ok), 'curved-detector-antiparallel-axes' if known else 'sphere-source-centred-equidistant',
+                               'ConeBeamGeometry with a source-centred spherical detector on the frame %r: all detector '
+                               'points are at distance src_radius + det_radius from the source' % ((a0, s2d, a1),), rp))
+            # rigid-motion image of the default geometry (direct construction on the integer frame)
+            for kind, curv in (('flat', 'None'), ('cyl', '(%r, None)' % rad), ('sph', '(%r, %r)' % (rad, rad))):
+                rp = (pre + "M = np.array([%r, %r, %r], dtype=float).T; M /= np.linalg.norm(M, axis=0)\n"
+                      "t = np.array([0.5, -1.0, 2.0])\nkw = dict(det_curvature_radius=%s, pitch=1.5, offset_along_axis=0.25)\n"
+                      "g0 = odl.tomo.ConeBeamGeometry(ap, dp2, 3.0, 2.0, **kw)\n"
+                      "g = odl.tomo.ConeBeamGeometry(ap, dp2, 3.0, 2.0, axis=%r, src_to_det_init=%r, det_axes_init=[%r, %r], translation=t, **kw)\n"
+                      "ok = True\nfor a, u in %r:\n"
+                      "    ok = ok and np.allclose(g.det_point_position(a, u), t + M.dot(g0.det_point_position(a, u)), atol=1e-9)\n"
+                      "    ok = ok and np.allclose(g.src_position(a), t + M.dot(g0.src_position(a)), atol=1e-9)\n"
+                      "    ok = ok and np.allclose(g.det_to_src(a, u), M.dot(g0.det_to_src(a, u)), atol=1e-9)\n"
+                      "    ok = ok and np.allclose(g.detector.surface_normal(u), M.dot(g0.detector.surface_normal(u)), atol=1e-9)\n"
+                      "ok = bool(ok)\n" % (a0, s2d, a1, curv, a1, s2d, a0, a1, pts))
+                env = {}
+                try:
+                    exec(rp, env)
+                    ok = env['ok']
+                except Exception:       # noqa
+                    ok = False
+                k = 'rigid-image-cone-' + kind
+                if known and kind != 'flat':
+                    k = 'curved-detector-antiparallel-axes'
+                out.append(C.Probe(bool(ok), k, 'ConeBeamGeometry[%s] built on the frame %r is translation + M (default geometry)'
+                                   % (kind, (a0, s2d, a1)), rp))
+    # frommatrix with generic rotation matrices (flat, cylindrical, spherical)
+    from odl.tomo.util.utility import axis_rotation_matrix
+    n = 6 if tier == 'quick' else 25
+    for _ in range(n):
+        ax = np.array([rng.uniform(-1, 1) for _ in range(3)])
+        ax /= np.linalg.norm(ax)
+        M = axis_rotation_matrix(ax, rng.uniform(-3, 3))
+        t = [round(rng.uniform(-2, 2), 3) for _ in range(3)]
+        rad = rng.choice([1.5, 2.5, 4.0])
+        pts = [(round(rng.uniform(-3.9, 3.9), 3), (round(rng.uniform(-1.2, 1.2), 3), round(rng.uniform(-1.2, 1.2), 3)))
+               for _ in range(3)]
+        for kind, curv in (('flat', 'None'), ('cyl', '(%r, None)' % rad), ('sph', '(%r, %r)' % (rad, rad))):
+            rp = (pre + "M = np.array(%r); t = np.array(%r)\nkw = dict(det_curvature_radius=%s, pitch=1.5)\n"
+                  "g0 = odl.tomo.ConeBeamGeometry(ap, dp2, 3.0, 2.0, **kw)\nperp_error = False\n"
+                  "try:\n    g = odl.tomo.ConeBeamGeometry.frommatrix(ap, dp2, 3.0, 2.0, np.hstack([M, t[:, None]]), **kw)\n"
+                  "    ok = True\n    for a, u in %r:\n"
+                  "        ok = ok and np.allclose(g.det_point_position(a, u), t + M.dot(g0.det_point_position(a, u)), atol=1e-9)\n"
+                  "        ok = ok and np.allclose(g.src_position(a), t + M.dot(g0.src_position(a)), atol=1e-9)\n"
+                  "        ok = ok and np.allclose(g.det_to_src(a, u), M.dot(g0.det_to_src(a, u)), atol=1e-9)\n"
+                  "    ok = bool(ok)\nexcept ValueError as e:\n    ok = False; perp_error = 'perpendicular' in str(e); observed = repr(e)\n"
+                  % (M.tolist(), t, curv, pts))
+            env = {}
+            try:
+                exec(rp, env)
+                ok, perp = env['ok'], env['perp_error']
+            except Exception:       # noqa
+                ok, perp = False, False
+            k = 'frommatrix-generic-cone-' + kind
+            if perp:
+                k = 'cone-curved-axes-exact-perpendicularity'
+            out.append(C.Probe(bool(ok), k, 'ConeBeamGeometry.frommatrix with a generic rotation matrix, %s detector: '
+                               'translation + M (default geometry)' % kind, rp))
+    return out
+
+
 def _probe_misc(rng, tier):
     import odl
     T = odl.tomo
@@ -1131,6 +1277,7 @@ def probes(rng, tier):
     out.extend(_probe_frommatrix(rng, tier))
     out.extend(_probe_factories(rng, tier))
     out.extend(_probe_misc(rng, tier))
+    out.extend(_probe_curved(rng, tier))
     return out
 
 
